@@ -33,6 +33,10 @@ For the two listeners only the guard of their single top-level `if` is translate
 with args = event.raw_args, resp. args.is_option_set("version") with args = event.args, raw_args is not None,
 raw_args.has_option_token("<literal>") with raw_args = args.raw_args); the body of print_version must end in
 `event.handled(True)`, the body of resolve_help_command in `event.stop_propagation()`.
+The raw arguments: in BOTH clikit/args/argv_args.py (ArgvArgs) and clikit/args/string_args.py (StringArgs) __init__ must contain
+`self._option_tokens = list(itertools.takewhile(lambda arg: arg != '--', self.tokens))`, the property `tokens` must be
+`return self._tokens`, and has_option_token must be `return token in self._option_tokens` (checked literally, fail closed);
+they are emitted once as option_tokens / has_option_token over an abstract string equality.
 TRUSTED: this translator; that IO.set_verbosity / set_quiet / set_interactive store what they are given (observed by the
 C09 / C10 ties); that `self.io_class` builds an IO from (input, output, error output) in that order.
 """
@@ -276,6 +280,27 @@ def generate(src):
             return "has_raw"
         return None
     version_guard = listener_guard(CFG, vl, ["args = event.args", "raw_args = args.raw_args"], vatoms, "event.handled(True)")
+    raw_shas = []
+    for rel, cls in (("clikit/args/argv_args.py", "ArgvArgs"), ("clikit/args/string_args.py", "StringArgs")):
+        t3 = open(os.path.join(src, rel)).read()
+        tr3 = ast.parse(t3)
+        init = find_method(rel, tr3, cls, "__init__")
+        want = "self._option_tokens = list(itertools.takewhile(lambda arg: arg != '--', self.tokens))"
+        stmts = [ast.unparse(x) for x in init.body]
+        if stmts.count(want) != 1 or any(x.startswith("self._option_tokens") and x != want for x in stmts):
+            fail(rel, init, "%s.__init__ does not set _option_tokens by `%s`" % (cls, want))
+        if stmts.index(want) < max(i for i, x in enumerate(stmts) if x.startswith("self._tokens = ")):
+            fail(rel, init, "%s.__init__ computes _option_tokens before _tokens is set" % cls)
+        for m, want_body in (("tokens", "return self._tokens"), ("has_option_token", "return token in self._option_tokens"),
+                        ("option_tokens", "return self._option_tokens")):
+            f3 = find_method(rel, tr3, cls, m)
+            b3 = [ast.unparse(x) for x in f3.body if not (isinstance(x, ast.Expr) and isinstance(x.value, ast.Constant))]
+            if b3 != [want_body]:
+                fail(rel, f3, "%s.%s is not `%s`" % (cls, m, want_body))
+        for n in ast.walk(tr3):
+            if isinstance(n, (ast.Assign, ast.AugAssign, ast.Delete)) and "_option_tokens" in ast.unparse(n) and ast.unparse(n) != want:
+                fail(rel, n, "_option_tokens is written elsewhere: %s" % ast.unparse(n))
+        raw_shas.append("   raw args   %s %s (__init__ line %d)  sha256 %s" % (rel, cls, init.lineno, hashlib.sha256(t3.encode()).hexdigest()))
     out = []
     out.append("(* GENERATED by harness/translate_switches.py from the clikit sources - DO NOT EDIT: overwritten by every bin/setup.")
     out.append("   the global switches (C09): DefaultApplicationConfig.create_io and the guards of the help and version listeners.")
@@ -284,10 +309,20 @@ def generate(src):
     for f in (fn, hl, vl):
         out.append("   function   %s DefaultApplicationConfig.%s (line %d)  sha256 %s" % (CFG, f.name, f.lineno, sha(text, f)))
     out.extend(shas)
+    out.extend(raw_shas)
     out.append("*)")
     out.append("From Coq Require Import ZArith NArith Bool List.")
     out.append("From Clikit Require Import Generated.GenGate.")
     out.append("Import ListNotations.")
+    out.append("")
+    out.append("(* ArgvArgs / StringArgs: _option_tokens = list(itertools.takewhile(lambda arg: arg != '--', self.tokens));")
+    out.append("   has_option_token(token) = token in self._option_tokens; eqb is Python's == on str *)")
+    out.append("Fixpoint takewhile {A} (p : A -> bool) (l : list A) : list A :=")
+    out.append("  match l with [] => [] | x :: r => if p x then x :: takewhile p r else [] end.")
+    out.append("Definition option_tokens (eqb : list N -> list N -> bool) (tokens : list (list N)) : list (list N) :=")
+    out.append("  takewhile (fun arg => negb (eqb arg %s)) tokens." % strlit("--"))
+    out.append("Definition has_option_token (eqb : list N -> list N -> bool) (tokens : list (list N)) (token : list N) : bool :=")
+    out.append("  existsb (eqb token) (option_tokens eqb tokens).")
     out.append("")
     out.append("(* the formatter handed to an Output: PlainFormatter, or AnsiFormatter with its `forced` argument *)")
     out.append("Inductive gformatter := GPlain | GAnsi (forced : bool).")
